@@ -685,6 +685,15 @@ func (u *Unit) dispatch(st *State, cs *callSite) []Value {
 	if r, ok := u.libraryModel(st, cs); ok {
 		return r
 	}
+	if _, isRepo := u.eng.funcs[origin]; !isRepo {
+		// function literals handed to library code (filepath.Walk, sort.Slice, ...) are verified
+		// as separate units: the library may call them any number of times
+		for _, a := range cs.call.Args {
+			if lit, ok := ast.Unparen(a).(*ast.FuncLit); ok {
+				u.spawnLit(st, lit, "callback")
+			}
+		}
+	}
 	if fc, ok := u.eng.contracts[origin]; ok {
 		if fc.Inline {
 			if fi, ok := u.eng.funcs[origin]; ok {
@@ -708,12 +717,13 @@ var pureExternalPkgs = map[string]bool{
 	"fmt": true, "errors": true, "strings": true, "path/filepath": true, "path": true, "encoding/hex": true, "strconv": true,
 	"time": true, "github.com/pkg/errors": true, "github.com/sirupsen/logrus": true, "math": true, "math/bits": true, "unicode": true,
 	"unicode/utf8": true, "bytes": true, "sort": false, "net/url": true, "crypto": true, "runtime": true, "log": true,
-	"encoding/binary": true, "hash": false, "crypto/sha256": true, "crypto/sha512": true, "os/signal": true, "reflect": true,
+	"encoding/binary": true, "github.com/kr/fs": true, "hash": false, "crypto/sha256": true, "crypto/sha512": true, "os/signal": true, "reflect": true,
 	"text/tabwriter": false, "encoding/json": false, "gopkg.in/cheggaaa/pb.v1": true,
 }
 
 func (u *Unit) externalCall(st *State, cs *callSite) []Value {
 	fn := cs.fn
+
 	pk := ""
 	if fn.Pkg() != nil {
 		pk = fn.Pkg().Path()
@@ -1489,9 +1499,28 @@ func (su *Unit) runLit() {
 	for _, rv := range fr.results {
 		st.vars[rv] = su.zeroValue(rv.Type())
 	}
+	// captured variables: one symbolic value each, fixed at unit entry
+	ast.Inspect(su.lit.Body, func(n ast.Node) bool {
+		id, ok := n.(*ast.Ident)
+		if !ok {
+			return true
+		}
+		v, ok := pf.info.Uses[id].(*types.Var)
+		if !ok || v.IsField() || v.Pkg() == nil || v.Parent() == v.Pkg().Scope() {
+			return true
+		}
+		if v.Pos() >= su.lit.Pos() && v.Pos() <= su.lit.End() {
+			return true
+		}
+		if _, have := st.vars[v]; !have {
+			st.vars[v] = su.freshValue(st, v.Name(), v.Type())
+			su.refFacts(st, st.vars[v], st.clock)
+		}
+		return true
+	})
 	su.boxEscaping(st, fr)
 	su.assumeAxioms(st)
-	// captured variables are symbolic (created on first read); requires may constrain them
+	// captured variables are symbolic; requires may constrain them
 	env := map[string]Value{}
 	for i := 0; i < sig.Params().Len(); i++ {
 		p := sig.Params().At(i)
